@@ -25,6 +25,14 @@ class K:
         return 2
 
 
+class Outer:
+    class Inner:
+        def deep(self, d):
+            if pm_rt.nx(d):
+                return 3
+            return 4
+
+
 if __name__ == "__main__":
     if len(sys.argv) > 1:
         print(f({"v": [], "k": 0}, []))
@@ -50,6 +58,12 @@ def to_cover(scope: str, mod: str):
         no_cover = ["K"]
     elif scope == "only_K":
         only_cover = ["K"]
+    elif scope == "no_deep":
+        no_cover = ["Outer.Inner.deep"]
+    elif scope == "only_deep":
+        only_cover = ["Outer.Inner.deep"]
+    elif scope == "no_Inner":
+        no_cover = ["Outer.Inner"]
     return config.ToCoverConfiguration(no_cover=no_cover, only_cover=only_cover)
 
 
@@ -66,10 +80,10 @@ def run_case(args) -> dict:
     for i, m in enumerate(sorted(markers)):
         excl[m] = MARKERS[(i + len(prog)) % 2]
     # clause lines (else / finally) carry their marker on the clause line itself
-    src0, line_of, meta = pymini.render(prog, {k: v for k, v in excl.items() if not (len(k) >= 2 and k[-1] == 0 and k[-2] in (2, 4))})
+    src0, line_of, meta = pymini.render(prog, {k: v for k, v in excl.items() if not (len(k) >= 2 and k[-1] == 0 and k[-2] in (2, 4, 5))})
     lines = src0.rstrip("\n").split("\n")
     # place markers on else:/finally: lines: locate by structure (re-render with hooks)
-    clause_marks = {k: v for k, v in excl.items() if len(k) >= 2 and k[-1] == 0 and k[-2] in (2, 4)}
+    clause_marks = {k: v for k, v in excl.items() if len(k) >= 2 and k[-1] == 0 and k[-2] in (2, 4, 5)}
     if clause_marks:
         src0, line_of, meta, clause_line = render_with_clauses(prog, excl)
         lines = src0.rstrip("\n").split("\n")
@@ -96,7 +110,8 @@ def run_case(args) -> dict:
         return range(s, e + 1)
 
     reg = {"f": region("def f(", ("def g(",)), "g": region("def g(", ("class K",)),
-           "meth": region("    def meth(", ("if __name__",)), "main": region("if __name__", ("if TYPE_CHECKING",)),
+           "meth": region("    def meth(", ("class Outer",)),
+           "deep": region("        def deep(", ("if __name__",)), "main": region("if __name__", ("if TYPE_CHECKING",)),
            "tc": region("if TYPE_CHECKING", ("\x00",))}
     # executable lines per region from the uninstrumented compile
     sys.modules.pop(mod, None)
@@ -139,6 +154,7 @@ def run_case(args) -> dict:
     exec_f = own_lines(code, "f") & reachable_lines(code, "f")
     exec_g = own_lines(code, "g")
     exec_meth = own_lines(code, "meth")
+    exec_deep = own_lines(code, "deep")
     ok, err = True, ""
     try:
         sp, _m = pyn.load_sut(mod, str(wd), metrics=("BRANCH", "LINE"), to_cover=to_cover(case["scope"], mod))
@@ -153,10 +169,11 @@ def run_case(args) -> dict:
     excl_lines = sorted(line_of[tuple(p)] for p in case["excluded"])
     ev = {"ok": ok, "error": err, "scope": case["scope"], "fcov": case["fcov"], "gcov": case["gcov"],
           "methcov": case["methcov"], "want_lines": want_lines, "want_pred_lines": want_preds, "excl_lines": excl_lines,
-          "g_exec": len(exec_g), "meth_exec": len(exec_meth), "source": src}
+          "g_exec": len(exec_g), "meth_exec": len(exec_meth), "deep_exec": len(exec_deep),
+          "deepcov": case.get("deepcov", True), "source": src}
     if sp is None:
         ev.update({"py_line_goals": [], "py_pred_lines": [], "g_goals": 0, "g_preds": 0, "meth_goals": 0,
-                   "meth_preds": 0, "main_goals": 0, "main_preds": 0, "tc_goals": 0, "tc_preds": 0,
+                   "meth_preds": 0, "deep_goals": 0, "deep_preds": 0, "deep_code_object": False, "main_goals": 0, "main_preds": 0, "tc_goals": 0, "tc_preds": 0,
                    "f_code_object": False, "g_code_object": False, "meth_code_object": False})
         return ev
     goal_lines = {m.line_number for m in sp.existing_lines.values()}
@@ -172,6 +189,8 @@ def run_case(args) -> dict:
         "g_goals": cnt(goal_lines, reg["g"]) - (1 if reg["g"][0] in goal_lines else 0), "g_preds": cnt(pred_lines, reg["g"]),
         "meth_goals": cnt(goal_lines, reg["meth"]) - (1 if reg["meth"][0] in goal_lines else 0),
         "meth_preds": cnt(pred_lines, reg["meth"]),
+        "deep_goals": cnt(goal_lines, reg["deep"]) - (1 if reg["deep"][0] in goal_lines else 0),
+        "deep_preds": cnt(pred_lines, reg["deep"]), "deep_code_object": "deep" in names,
         "main_goals": cnt(goal_lines, range(reg["main"][0] + 1, reg["main"][-1] + 1)),
         "main_preds": cnt(pred_lines, range(reg["main"][0] + 1, reg["main"][-1] + 1)),
         "tc_goals": cnt(goal_lines, range(reg["tc"][0] + 1, reg["tc"][-1] + 1)),
@@ -239,6 +258,9 @@ def render_with_clauses(prog, excl):
                 cls = {1: "pm_rt.E1", 2: "pm_rt.E2", 9: "Exception"}[s["x"]]
                 emit(f"except {cls}:", ind, p + (3, 0))
                 block(s["h"], p, 3, ind + 1)
+            if s.get("o"):
+                emit("else:", ind, None, clause=p + (5, 0))
+                block(s["o"], p, 5, ind + 1)
             if s["f"]:
                 emit("finally:", ind, None, clause=p + (4, 0))
                 block(s["f"], p, 4, ind + 1)
